@@ -433,6 +433,30 @@ func compare(srcs, dirs []string, trees []string, classes []string, scratch stri
 	return rows
 }
 
+// unquoteComp removes the quotes of a word component and reports whether an unquoted * ? [ remains
+func unquoteComp(c string) (string, bool) {
+	var sb strings.Builder
+	q, meta := byte(0), false
+	for i := 0; i < len(c); i++ {
+		b := c[i]
+		switch {
+		case q == 0 && (b == '\'' || b == '"'):
+			q = b
+		case q != 0 && b == q:
+			q = 0
+		case q == '"' && b == '\\' && i+1 < len(c) && strings.IndexByte("\\\"$`", c[i+1]) >= 0:
+			i++
+			sb.WriteByte(c[i])
+		default:
+			if q == 0 && (b == '*' || b == '?' || b == '[') {
+				meta = true
+			}
+			sb.WriteByte(b)
+		}
+	}
+	return sb.String(), meta
+}
+
 func hasUnquotedBackslash(w string) bool {
 	q := byte(0)
 	for i := 0; i < len(w); i++ {
@@ -476,10 +500,11 @@ func inDomain(word string, o Opts, t Tree) bool {
 		return false // would leave the per-tree scratch directory (harness artefact: the driver files live above it)
 	}
 	for i, c := range comps {
-		if i > 0 && !strings.ContainsAny(c, "*?[") {
-			// class literal_component_dangling_symlink: a literal component after a glob one names a dangling symlink
+		if lit, meta := unquoteComp(c); i > 0 && !meta {
+			// class literal_component_dangling_symlink: a literal component (possibly quoted, like "?"q) after a
+			// glob one names a dangling symlink
 			for _, e := range t {
-				if e.Kind == "l" && e.Path[len(e.Path)-1] == strings.Trim(c, "\"'") {
+				if e.Kind == "l" && e.Path[len(e.Path)-1] == lit {
 					if _, err := t.resolve(e.Path, 8); err != nil {
 						return false
 					}
@@ -552,6 +577,7 @@ var witnesses = []struct{ Class, Script string }{
 	{"", "set -f\nshopt -s globstar\nprintf '%s\\n' dir/** none/**/"},
 	{"", "printf '%s\\n' k*/f k*/ ./k*/?"},
 	{"globstar_symlink_after_prefix", "shopt -s globstar\nprintf '%s\\n' ./**/x"},
+	{"literal_component_dangling_symlink", "printf '%s\\n' */\"dangling\""},
 	{"literal_component_dangling_symlink", "printf '%s\\n' */dangling"},
 	// repaired by fix: commits
 	{"", "printf '%s\\n' ?x"},
